@@ -80,7 +80,8 @@ func (g *c10Gen) options() string {
 	opts := []string{"plain=true", "quiet=true", "serverless=true", "before=1", "after=2", "max=3", "k", "k=", "=v", "max=", "max=abc",
 		"before=-1", "after=99999999999999999999", "max=-5", "before=base64%!!", "x=base64%" + base64.StdEncoding.EncodeToString([]byte("hi")),
 		"plain=base64%", "max=base64%" + base64.StdEncoding.EncodeToString([]byte("notanumber")), "=", "==", "plain", "quiet=TRUE", "max=1e3",
-		"before=100000000", "after=2147483648"}
+		"before=100000000", "after=2147483648", "before=99999999999", "before=4611686018427387904", "before=9223372036854775807",
+		"after=9223372036854775807", "max=9223372036854775807", "before=2147483647", "max=4294967296", "before=1152921504606846976"}
 	n := rng.Intn(4)
 	var out []string
 	for i := 0; i < n; i++ {
@@ -248,7 +249,12 @@ func c10Probes(file string) []c10Input {
 		mk("map:plain=true"), mk(".ack"), mk("timeout"), mk("tail:max=1"), mk(""),
 		mk("cat " + filepath.Dir(file) + "//many/m00*.log regex:noop "), mk("cat " + filepath.Dir(file) + "/./*/m01*.log regex:noop "),
 		mk("cat " + filepath.Dir(file) + "/many/../*/m02*.log regex:noop "), mk("cat:quiet " + file + " regex:noop "), mk("cat:plain=true: " + file + " regex:noop "),
-		mk("map select count($line) from STATS logformat bogus"), mk("map select count($line) logformat nosuchformat")}
+		mk("map select count($line) from STATS logformat bogus"), mk("map select count($line) logformat nosuchformat"),
+		// context sizes no file has: the server must not size anything by them
+		mk("grep:before=4611686018427387904 " + file + " regex:default two"), mk("grep:before=99999999999 " + file + " regex:default three"),
+		mk("grep:before=9223372036854775807:after=9223372036854775807:max=9223372036854775807 " + file + " regex:default line"),
+		mk("grep:after=9223372036854775807 " + file + " regex:invert two"), mk("grep:max=9223372036854775807:before=1152921504606846976 " + file + " regex:default two"),
+		mk("cat:before=4611686018427387904 " + file + " regex:noop "), mk("tail:before=4611686018427387904 " + file + " regex:default two")}
 }
 
 func c10(r *vlib.Run) int {
